@@ -5,7 +5,303 @@ P: see CONTRACTS (loop invariants of pack2d over reals) when present.
 """
 from .common import *   # noqa
 
-CONTRACTS = []
+import z3
+from fractions import Fraction
+from pyvc.nparr import sym_array, SArr
+from pyvc.exec import LoopSpec
+
+ARL = 'noaafiles/_arl.py'
+
+
+class Pack2D(Contract):
+    """pack2d over the reals (A-REAL: float32 rounding ignored) for a field of ARBITRARY shape (NY >= 1, NX >= 2) and
+    arbitrary values, for fields whose exponent is k and whose largest neighbour difference is at most 127 steps of
+    2**(k-7) (the remaining sliver 127..128 steps is where the known findings live; it is left to the bounded harness):
+      * VAR1 is the first element; NEXP = k, PREC = 2**k/254;
+      * every stored byte is the packed integer itself, 0..255 (no wrap-around);
+      * the packer's running reconstruction G obeys the DECODER's recurrences
+            G[j,0] = (VAR1 if j == 0 else G[j-1,0]) + (byte[j,0]-127)/2**(7-k),  G[j,i] = G[j,i-1] + (byte[j,i]-127)/2**(7-k)
+        (unpack is proved to compute exactly these recurrences: contract Unpack below);
+      * |field[j,i] - G[j,i]| <= one quantisation step 2**(k-7), for every element (the bound the property states);
+      * KSUM = (sum of the bytes) mod 255."""
+    prop = 'C20'
+    target = ARL + '::pack2d'
+    max_paths = 80
+    prefer_solver = 'cvc5-1.0.3'     # the quantified column-loop obligations: cvc5 is the fast one
+    cli_timeout_s = 25
+    budget_s = 240
+
+    def __init__(self, k):
+        self.k = k
+        self.S = Fraction(2) ** (7 - k)
+        self.h = Fraction(1) / self.S          # the property's bound: one quantisation step 2**(k-7)
+        self.name = 'pack2d[exponent %d, largest neighbour difference <= 127 steps]' % k
+
+    def inputs(self, ctx, I):
+        ny, nx = ctx.fresh('NY'), ctx.fresh('NX')
+        rv = sym_array('field', (ny, nx), 'f')
+        self.ny, self.nx, self.rv = ny, nx, rv
+        return dict(RVARA=rv, NY=ny, NX=nx)
+
+    def call_args(self, inp):
+        return [inp['RVARA']], {}
+
+    def requires(self, inp):
+        return And(ge(inp['NY'], 1), ge(inp['NX'], 2))
+
+    def small(self, inp):
+        return And(le(inp['NY'], 3), le(inp['NX'], 3))
+
+    # ---- pieces of the invariants ------------------------------------------------------------------------------
+    def step_ok(self, byte, prev, new, val):
+        """one packed element: byte unwrapped, reconstruction advanced the decoder's way, error at most one step"""
+        return And(ge(byte, 0), le(byte, 255), eq(new, add(prev, sym.truediv(sub(byte, 127), self.S))),
+                   le(sym.abs_(sub(val, new)), self.h))
+
+    def entry_lemmas(self, env):
+        rv, S = self.rv, self.S
+        RMAX = env['RMAX']
+        r, c = z3.Int('el_r'), z3.Int('el_c')
+        rows = z3.ForAll([r, c], Implies(And(ge(r, 0), lt(r, self.ny), ge(c, 1), lt(c, self.nx)),
+                                         le(sym.abs_(sub(rv.get(r, c), rv.get(r, sub(c, 1)))), RMAX)))
+        col0 = z3.ForAll([r], Implies(And(ge(r, 1), lt(r, self.ny)), le(sym.abs_(sub(rv.get(r, 0), rv.get(sub(r, 1), 0))), RMAX)))
+        return [('trusted:exponent selection (float32 log2 not modelled): NEXP = %d, SCEXP = 2**(7-NEXP), PREC = 2**NEXP/254, and the '
+                 'largest neighbour difference is at most 127 steps (RMAX*SCEXP <= 127)' % self.k,
+                 And(eq(env['NEXP'], self.k), eq(env['SCEXP'], self.S), eq(env['PREC'], Fraction(2) ** self.k / 254),
+                     le(mul(RMAX, self.S), 127), ge(RMAX, 0))),
+                ('row-neighbour-differences-bounded-by-RMAX', rows),
+                ('first-column-differences-bounded-by-RMAX', col0)]
+
+    def col0_done(self, env, upto, CVAR, ROLDS):
+        j = z3.Int('c0_j')
+        VAR1 = env['VAR1']
+        prev = lambda jj: sym.ite(eq(jj, 0), VAR1, ROLDS.get(sub(jj, 1)))
+        return z3.ForAll([j], Implies(And(ge(j, 0), lt(j, upto)),
+                                      self.step_ok(CVAR.get(j, 0), prev(j), ROLDS.get(j), self.rv.get(j, 0))))
+
+    def inv_rows(self, env):
+        k0 = env['__it_myJ']
+        CVAR, ROLDS, ROLD, VAR1 = env['CVAR'], env['ROLDS'], env['ROLD'], env['VAR1']
+        return [('index-in-range', And(ge(k0, 0), le(k0, self.ny))),
+                ('first-element', eq(VAR1, self.rv.get(0, 0))),
+                ('running-value-is-last-reconstruction', eq(ROLD, sym.ite(eq(k0, 0), VAR1, ROLDS.get(sub(k0, 1))))),
+                ('first-column-packed-so-far', self.col0_done(env, k0, CVAR, ROLDS))]
+
+    def keep_rows(self, env):
+        j = sub(env['__it_myJ'], 1)
+        ICVAL = env['ICVAL']
+        return [('packed-integer-in-byte-range', And(ge(ICVAL, 0), le(ICVAL, 255))),
+                ('stored-byte-is-the-packed-integer', eq(env['CVAR'].get(j, 0), ICVAL)),
+                ('this-element-within-one-step', le(sym.abs_(sub(self.rv.get(j, 0), env['ROLD'])), self.h))]
+
+    def inv_cols(self, env):
+        c = env['__it_myI']
+        CVAR, ROLDS, ROLD = env['CVAR'], env['ROLDS'], env['ROLD']
+        G = env.ctx.ghost['G']
+        r, cc = z3.Int('ic_r'), z3.Int('ic_c')
+        inr = And(ge(r, 0), lt(r, self.ny))
+        cur = z3.ForAll([r], Implies(inr, And(eq(ROLD.get(r), G.get(r, sub(c, 1))), eq(G.get(r, 0), ROLDS.get(r)))))
+        done = z3.ForAll([r, cc], Implies(And(inr, ge(cc, 1), lt(cc, c)),
+                                          self.step_ok(CVAR.get(r, cc), G.get(r, sub(cc, 1)), G.get(r, cc), self.rv.get(r, cc))))
+        return [('index-in-range', And(ge(c, 1), le(c, self.nx))),
+                ('first-element', eq(env['VAR1'], self.rv.get(0, 0))),
+                ('running-vector-has-one-entry-per-row', eq(ROLD.shape[0], self.ny)),
+                ('first-column-packed', self.col0_done(env, self.ny, CVAR, ROLDS)),
+                ('running-vector-is-last-reconstructed-column', cur),
+                ('columns-packed-so-far', done)]
+
+    def keep_cols(self, env):
+        c = sub(env['__it_myI'], 1)
+        ICVAL, ROLD, CVAR = env['ICVAL'], env['ROLD'], env['CVAR']
+        r = z3.Int('kc_r')
+        inr = And(ge(r, 0), lt(r, self.ny))
+        return [('packed-integers-in-byte-range', z3.ForAll([r], Implies(inr, And(ge(ICVAL.get(r), 0), le(ICVAL.get(r), 255))))),
+                ('stored-bytes-are-the-packed-integers', z3.ForAll([r], Implies(inr, eq(CVAR.get(r, c), ICVAL.get(r))))),
+                ('this-column-within-one-step', z3.ForAll([r], Implies(inr, le(sym.abs_(sub(self.rv.get(r, c), ROLD.get(r))), self.h))))]
+
+    def ghost_cols_init(self, env):
+        ROLDS = env['ROLDS']
+        g = sym_array('G0', (self.ny, self.nx), 'f')
+        return SArr((self.ny, self.nx), lambda q: sym.ite(eq(q[1], 0), ROLDS.get(q[0]), g.get(q)), 'f', tag='G')
+
+    def ghost_cols_step(self, env):
+        G, ROLD = env.ctx.ghost['G'], env['ROLD']
+        c = sub(env['__it_myI'], 1)           # the column just packed (the index has already advanced)
+        old = G
+        return {'G': SArr((self.ny, self.nx), lambda q: sym.ite(eq(q[1], c), ROLD.get(q[0]), old.get(q)), 'f', tag='G')}
+
+    @property
+    def loops(self):
+        return {0: LoopSpec(inv=self.inv_rows, lemmas=self.entry_lemmas, keep_lemmas=self.keep_rows,
+                            decreases=lambda env: sub(self.ny, env['__it_myJ']),
+                            modifies={'CVAR': lambda env, q: eq(q[1], 0), 'ROLDS': lambda env, q: True}),
+                1: LoopSpec(inv=self.inv_cols, keep_lemmas=self.keep_cols, decreases=lambda env: sub(self.nx, env['__it_myI']),
+                            ghost_init=lambda env: {'G': self.ghost_cols_init(env)}, ghost_step=self.ghost_cols_step,
+                            modifies={'CVAR': lambda env, q: ge(q[1], 1)})}
+
+    def ensures(self, inp, res, I):
+        if not (isinstance(res, tuple) and len(res) == 5 and isinstance(res[0], SArr)):
+            return [('returns (bytes, PREC, NEXP, VAR1, KSUM)', False)]
+        CVAR, PREC, NEXP, VAR1, KSUM = res
+        G = I.ctx.ghost.get('G')
+        if G is None:
+            return [('reconstruction-ghost-present', False)]
+        j, i = z3.Int('e_j'), z3.Int('e_i')
+        rng = And(ge(j, 0), lt(j, self.ny), ge(i, 0), lt(i, self.nx))
+        prev = sym.ite(eq(i, 0), sym.ite(eq(j, 0), VAR1, G.get(sub(j, 1), 0)), G.get(j, sub(i, 1)))
+        byte = CVAR.get(j, i)
+        sums = [x for x in I.ctx.ghost.get('sums', []) if x['buf'] is CVAR.buf]
+        ks = bool(sums) and sums[-1]['writes'] == CVAR.buf.writes and sums[-1]['whole'] and eq(KSUM, sym.mod(sums[-1]['symbol'], 255))
+        return [('first-element-exact', eq(VAR1, self.rv.get(0, 0))),
+                ('exponent-and-precision', And(eq(NEXP, self.k), eq(PREC, Fraction(2) ** self.k / 254))),
+                ('no-byte-wrap-around', Implies(rng, And(ge(byte, 0), le(byte, 255)))),
+                ('reconstruction-obeys-the-decoder-recurrence', Implies(rng, eq(G.get(j, i), add(prev, sym.truediv(sub(byte, 127), self.S))))),
+                ('error-within-one-quantisation-step', Implies(rng, le(sym.abs_(sub(self.rv.get(j, i), G.get(j, i))), self.h))),
+                ('checksum-is-byte-sum-mod-255', ks),
+                ('shape-kept', And(eq(CVAR.shape[0], self.ny), eq(CVAR.shape[1], self.nx)))]
+
+
+    # -- replay: the counter-model's field through the real pack2d and unpack (float32) ----------------------------
+    def concretize(self, model, inp):
+        return dict(field=inp['RVARA'].model_value(model), k=self.k)
+
+    def concretize_without_model(self, inp):
+        return dict(field=None, k=self.k)
+
+    def replay(self, c):
+        import numpy as np
+        import_real()
+        vals = (c.get('field') or {}).get('values')
+        cands = []
+        if vals and vals[0] and len(vals[0]) >= 2:
+            cands.append(np.array([[float(fl(x)) for x in row] for row in vals], 'f'))
+        # canonical fields inside the contract premise (exponent k, differences <= 127 steps): the uninterpreted parts of
+        # a counter-model (byte sum) need not show on the model's own field
+        q = 2.0 ** (int(c['k']) - 7)
+        rng = np.random.default_rng(20)
+        for shp in ((2, 2), (3, 4), (5, 7)):
+            base = rng.integers(-60, 61, size=shp).astype('d')
+            base[0, :2] = (0, 100)                     # a difference of 100 steps fixes the exponent at k
+            cands.append((base * q + rng.random(shp) * q * 0.4).astype('f'))
+        out = None
+        for f in cands:
+            r = self.replay_one(f, int(c['k']))
+            if r is None:
+                continue
+            if not r[0]:
+                return r
+            out = out or r
+        return out
+
+    def replay_one(self, f, k):
+        import numpy as np
+        from PseudoNetCDF.noaafiles._arl import pack2d, unpack
+        cvar, prec, nexp, var1, ksum = pack2d(f.copy())
+        by = np.frombuffer(np.ascontiguousarray(cvar).tobytes(), 'u1').reshape(f.shape).astype('i8')
+        q = 2.0 ** (int(nexp) - 7)
+        d = np.abs(np.diff(f.astype('d'), axis=1)).max()
+        d = max(d, np.abs(np.diff(np.append(f[0, 0], f[:, 0]).astype('d'))).max())
+        if int(nexp) != k or d / q > 127:
+            return None           # outside the contract premise once rounded to float32
+        dec = unpack(cvar[None, None], np.array([[var1]], 'f'), np.array([[nexp]]))[0, 0].astype('d')
+        # the decoder's recurrence in exact arithmetic on the stored bytes
+        G = np.zeros(f.shape)
+        for j in range(f.shape[0]):
+            G[j, 0] = (float(var1) if j == 0 else G[j - 1, 0]) + (by[j, 0] - 127) * q
+            for i in range(1, f.shape[1]):
+                G[j, i] = G[j, i - 1] + (by[j, i] - 127) * q
+        err = np.abs(G - f.astype('d')).max()
+        ok = (float(var1) == float(f[0, 0]) and err <= q * (1 + 1e-6) and int(ksum) == int(by.sum() % 255)
+              and abs(float(prec) - 2.0 ** int(nexp) / 254) <= 1e-6 * float(prec) and np.abs(dec - G).max() <= q * 1e-3 + np.abs(f).max() * 1e-6)
+        return ok, dict(field=f.tolist(), bytes=by.tolist(), NEXP=int(nexp), error_in_steps=err / q, KSUM=int(ksum), byte_sum_mod_255=int(by.sum() % 255))
+
+
+class Unpack(Contract):
+    """unpack over the reals for ANY number of records T and any field shape: the result obeys exactly the decoder
+    recurrences that pack2d's running reconstruction is proved to obey (same start value VAR1, same increments
+    (byte-127)/2**(7-EXP)), so unpack(pack2d(x)) IS that reconstruction (two arrays obeying the same first-order recurrence
+    from the same start are equal -- the induction is not machine-checked here)."""
+    prop = 'C20'
+    target = ARL + '::unpack'
+
+    def __init__(self):
+        self.name = 'unpack[T records of NY x NX bytes]'
+
+    def inputs(self, ctx, I):
+        T, ny, nx = ctx.fresh('T'), ctx.fresh('NY'), ctx.fresh('NX')
+        self.T, self.ny, self.nx = T, ny, nx
+        by = sym_array('bytes', (T, ny, nx), 'i')
+        v1 = sym_array('VAR1', (T,), 'f')
+        ex = sym_array('EXP', (T,), 'i')
+        self.by, self.v1, self.ex = by, v1, ex
+        return dict(bytes=by, VAR1=v1, EXP=ex, T=T, NY=ny, NX=nx)
+
+    def call_args(self, inp):
+        return [inp['bytes'], inp['VAR1'], inp['EXP']], {}
+
+    def requires(self, inp):
+        t, j, i = z3.Int('u_t'), z3.Int('u_j'), z3.Int('u_i')
+        rng = And(ge(t, 0), lt(t, self.T), ge(j, 0), lt(j, self.ny), ge(i, 0), lt(i, self.nx))
+        return And(ge(self.T, 1), ge(self.ny, 1), ge(self.nx, 1),
+                   z3.ForAll([t, j, i], Implies(rng, And(ge(self.by.get(t, j, i), 0), le(self.by.get(t, j, i), 255)))))
+
+    def small(self, inp):
+        return And(le(self.T, 2), le(self.ny, 2), le(self.nx, 2))
+
+    def ensures(self, inp, res, I):
+        if not isinstance(res, SArr) or res.ndim != 3:
+            return [('returns a T x NY x NX array', False)]
+        t, j, i = z3.Int('t'), z3.Int('j'), z3.Int('i')
+        rng = And(ge(t, 0), lt(t, self.T), ge(j, 0), lt(j, self.ny), ge(i, 0), lt(i, self.nx))
+        inv = sym.truediv(1, sym.pow_(Fraction(2), sym.to_real(sub(7, self.ex.get(t)))))
+        prev = sym.ite(eq(i, 0), sym.ite(eq(j, 0), self.v1.get(t), res.get(t, sub(j, 1), 0)), res.get(t, j, sub(i, 1)))
+        return [('shape', And(eq(res.shape[0], self.T), eq(res.shape[1], self.ny), eq(res.shape[2], self.nx))),
+                ('decoder-recurrence: out = previous + (byte-127)/2**(7-EXP), starting from VAR1',
+                 Implies(rng, eq(res.get(t, j, i), add(prev, mul(sub(self.by.get(t, j, i), 127), inv))))),
+                ('inputs-not-modified', Implies(rng, And(eq(inp['bytes'].get(t, j, i), self.by.fn(t, j, i)), eq(inp['VAR1'].get(t), self.v1.fn(t)))))]
+
+
+    def concretize(self, model, inp):
+        return dict(bytes=inp['bytes'].model_value(model), VAR1=inp['VAR1'].model_value(model), EXP=inp['EXP'].model_value(model))
+
+    def concretize_without_model(self, inp):
+        return dict(bytes=None)
+
+    def replay(self, c):
+        import numpy as np
+        import_real()
+        from PseudoNetCDF.noaafiles._arl import unpack
+        cands = []
+        b = (c.get('bytes') or {}).get('values')
+        if b and (c.get('VAR1') or {}).get('values') is not None and (c.get('EXP') or {}).get('values') is not None:
+            try:
+                cands.append((np.array(b, 'i8').astype('u1'), np.array([float(fl(x)) for x in c['VAR1']['values']], 'f'),
+                              np.array([int(x) for x in c['EXP']['values']], 'i')))
+            except Exception:
+                pass
+        rng = np.random.default_rng(7)
+        cands.append((rng.integers(0, 256, size=(2, 3, 4)).astype('u1'), np.array([1.5, -20.], 'f'), np.array([3, -2], 'i')))
+        cands = [x for x in cands if x[0].ndim == 3 and all(abs(int(e)) < 60 for e in x[2])]
+        res = None
+        for by, v1, ex in cands:
+            src = by.copy()
+            out = unpack(by.view('S1'), v1, ex).astype('d')
+            exp = np.zeros(by.shape)
+            for t in range(by.shape[0]):
+                q = 2.0 ** (int(ex[t]) - 7)
+                for j in range(by.shape[1]):
+                    for i in range(by.shape[2]):
+                        prev = (float(v1[t]) if j == 0 else exp[t, j - 1, 0]) if i == 0 else exp[t, j, i - 1]
+                        exp[t, j, i] = prev + (int(by[t, j, i]) - 127) * q
+            tol = 1e-5 * (np.abs(exp).max() + 1)
+            ok = out.shape == exp.shape and np.abs(out - exp).max() <= tol and np.array_equal(by, src)
+            res = (ok, dict(bytes=by.tolist(), VAR1=v1.tolist(), EXP=ex.tolist(), got=out.tolist()[:1], expected=exp.tolist()[:1]))
+            if not ok:
+                return res
+        return res
+
+
+CONTRACTS = [Pack2D(k) for k in (-3, 0, 7)] + [Unpack()]
 
 
 def bounded(tier, seed):
@@ -163,8 +459,18 @@ def bounded_replay(p):
 
 
 META = dict(
-    level='exploration',
-    technique='bounded run-time contract on the real pack2d/unpack (float32); loop-invariant proof over reals planned in CONTRACTS',
-    text='pack/unpack error, first element, checksum and no-wrap checked on float32 fields incl. adversarial differences next to powers of two.',
-    note='bounded only.',
-    assumptions=[], explanation='')
+    level='other',
+    technique='pack2d (loop invariants over symbolic-size arrays, ghost reconstruction array, staged conjunct-wise invariants) and unpack (cumsum '
+              'recurrences) proved by pyvc over the reals; float32 behaviour, the exponent selection and the file layer by bounded run-time contract',
+    text='Proved over the reals, for fields of ANY shape and any values whose exponent is k in {-3, 0, 7} and whose largest neighbour difference is at most '
+         '127 quantisation steps: first element exact, every byte is the packed integer in 0..255 (no wrap-around), the running reconstruction obeys the '
+         'decoder recurrence, every element within one quantisation step 2**(k-7), KSUM = byte sum mod 255; and for ANY number of records / shape / exponent: '
+         'unpack computes exactly that decoder recurrence and leaves its inputs unchanged. Bounded (float32, real functions): error, first element, checksum, '
+         'no-wrap on adversarial fields next to powers of two; vardef text; reference-encoded files read by arlpackedbit; the writer.',
+    note='The sliver of fields whose largest difference lies between 127 and 128 steps is where pack2d really violates the bound (known findings); the proof '
+         'excludes it by its premise and the bounded harness reports it. The exponent selection (float32 log) is a trusted premise of the proof, not verified. '
+         'The equality unpack(pack2d(x)) = reconstruction follows from the two proved recurrences by an induction that is not machine-checked.',
+    assumptions=['A-REAL: float32 arithmetic treated as exact real arithmetic in pack2d/unpack',
+                 'trusted premise at the first loop of pack2d: NEXP = k, SCEXP = 2**(7-k), PREC = 2**k/254, RMAX*SCEXP <= 127 (lines computing the exponent are not verified)',
+                 'numpy.diff/abs/max/append/cumsum/zeros/uint8 store/int32 cast as modelled in pyvc/nparr.py (trusted); numpy.sum uninterpreted'],
+    explanation='mixed: discharged obligations for pack2d (3 exponents) and unpack + bounded float32 harness')
